@@ -235,6 +235,16 @@ def r6(ctx):
     h = g.in_loop(ing[0].bb)
     good = h is not None and pk[0].bb in g.loop_blocks(h)
     ctx.check(good, 'R6', 'peek-in-loop', pk[0], 'peek is re-evaluated in the ingestion loop after every completed block', 'peek is not re-evaluated after a block completed')
+    # every heartbeat starts with the ingestion step, under no condition: an eligible child is taken at
+    # the next opportunity
+    hb = ctx.fn('R6', 'ic_btc_canister::heartbeat::heartbeat::{closure#0}')
+    if hb:
+        ic = [c for c in hb.calls_to('ic_btc_canister::heartbeat::ingest_stable_blocks_into_utxoset') if not c.cleanup]
+        gh = cfg(hb)
+        rets = return_blocks(hb)
+        good = len(ic) == 1 and not cond_exprs(prog, hb, ic[0].bb) and all(gh.dominates(ic[0].bb, r) for r in rets)
+        ctx.check(good, 'R6', 'heartbeat-always-ingests', ic[0] if ic else hb, 'every heartbeat runs the stable-block ingestion first, unconditionally',
+                  'the heartbeat does not run the ingestion step unconditionally (conditions: %s)' % (fmt_conds(cond_exprs(prog, hb, ic[0].bb)) if ic else 'call not found'))
     rows = [r for r in table(prog, f) if P.agg(variant='Done')(r[1])]
     good = len(rows) == 1 and P.exactly(rows[0][2], [P.is_(P.call(UB + 'peek', P.anything), 'None')])
     ctx.check(good, 'R6', 'done-only-when-none', f.where(rows[0][0]) if rows else f, 'Done is returned only when peek finds no stable child', 'Done rows: %s' % describe_table(rows))
